@@ -266,6 +266,11 @@ def same_obj(a, b):
     return a == b
 
 
+class BadReturn(Exception):
+    """`ro + msg` returned something that is not the running order: after `ro += msg` the caller's
+    variable no longer holds a running order (every later operation fails with a built-in exception)."""
+
+
 def merge(ro, msg):
     """``ro += msg`` with every warning recorded and ordinary exceptions captured."""
     out = Outcome()
@@ -276,6 +281,8 @@ def merge(ro, msg):
         except Exception as e:  # never BaseException: CrossHair steers paths with those
             out.exc = e
     out.warns = own_warnings(rec)
+    if out.exc is None and out.result is not ro:
+        out.exc = BadReturn('ro + msg returned %s instead of the running order' % type(out.result).__name__)
     return out
 
 
